@@ -41,7 +41,7 @@ import (
 )
 
 // baselineLimit bounds the un-instrumented run (every workload program finishes in seconds).
-const baselineLimit = 240 * time.Second
+const baselineLimit = 60 * time.Second
 
 type result struct {
 	Status    string                 `json:"status"` // ok | build-error | rewrite-error | asm-error | run-error
@@ -161,7 +161,7 @@ func runProgram(file, traceFile string, maxEvents int) (res result) {
 		}
 		// the vendored wazero cannot cancel a running module: run it in a goroutine and give up (the whole process
 		// exits after reporting) when it takes far longer than the un-instrumented run
-		limit := 60*time.Second + 40*time.Duration(res.Ms["run0"])*time.Millisecond
+		limit := 20*time.Second + 40*time.Duration(res.Ms["run0"])*time.Millisecond
 		done := make(chan error, 1)
 		go func() {
 			done <- wazero.VerifC11Run(vname, wasm1, fset, mainFunc, tr, hostModuleName, tr.register, tr.atExit)
